@@ -39,3 +39,51 @@ def action_complete(f, fa, action_block, allowed_edge=None):
                     y, t.get("line"))
             st.append((z, y if f.term(y)["k"] == "switch" else via))
     return True, "every completed iteration passes block %d" % action_block
+
+
+def only_mutated_by(f, local, allowed_blocks):
+    """The local (the list being built) is mutated only by the calls ending the blocks in `allowed_blocks`: every `&mut local..` borrow (through
+    one level of re-borrowing) is an argument of one of those calls, nothing is stored into its fields, and it is not handed by value to a call.
+    -> (ok, detail)"""
+    rec = f.rec
+    refs = {}          # ref local -> block of the borrow
+    for bi, blk in enumerate(rec["blocks"]):
+        if blk.get("cleanup"):
+            continue
+        for st in blk["stmts"]:
+            if st["k"] != "assign":
+                continue
+            rv, pl = st["rv"], st["place"]
+            if pl["local"] == local and pl["proj"]:
+                return False, "a field / element of the list is assigned directly (line %s)" % st.get("line")
+            if rv["k"] in ("ref", "rawptr") and rv.get("mut") and rv["place"]["local"] == local:
+                if pl["proj"]:
+                    return False, "a mutable borrow of the list is stored away (line %s)" % st.get("line")
+                refs[pl["local"]] = bi
+    # re-borrows  r2 = &mut *r1
+    changed = True
+    while changed:
+        changed = False
+        for bi, blk in enumerate(rec["blocks"]):
+            for st in blk["stmts"]:
+                if st["k"] == "assign" and st["rv"]["k"] in ("ref", "rawptr") and st["rv"].get("mut") and st["rv"]["place"]["local"] in refs \
+                        and not st["place"]["proj"] and st["place"]["local"] not in refs:
+                    refs[st["place"]["local"]] = bi
+                    changed = True
+                if st["k"] == "assign" and st["rv"]["k"] == "use" and st["rv"]["op"].get("k") in ("move", "copy") and not st["rv"]["op"]["place"]["proj"] \
+                        and st["rv"]["op"]["place"]["local"] in refs and not st["place"]["proj"] and st["place"]["local"] not in refs:
+                    refs[st["place"]["local"]] = bi
+                    changed = True
+    for bi, blk in enumerate(rec["blocks"]):
+        if blk.get("cleanup"):
+            continue
+        t = blk["term"]
+        if t["k"] != "call":
+            continue
+        for a in t.get("args", []):
+            if a.get("k") in ("move", "copy") and not a["place"]["proj"]:
+                if a["place"]["local"] in refs and bi not in allowed_blocks:
+                    return False, "the list is also mutated by %s (line %s)" % (t.get("resolved") or t.get("callee"), t.get("line"))
+                if a["place"]["local"] == local:
+                    return False, "the list is handed by value to %s (line %s)" % (t.get("resolved") or t.get("callee"), t.get("line"))
+    return True, "%d mutable borrows, all feeding the allowed call(s)" % len(refs)
